@@ -146,7 +146,13 @@ class DefGen:
                 and f.get("type") != "records" and not (kind == "struct" and "nullableVersions" in f):
             ta = max(a, flex_lo)
             f["taggedVersions"] = f"{ta}+"
-            tag = next(t for t in range(50) if t not in tags)
+            # tags need not be declared in ascending order, nor be contiguous
+            free = [t for t in range(0, 9) if t not in tags] or [t for t in range(9, 60) if t not in tags]
+            tag = free[0] if r.random() < 0.5 else r.choice(free)
+            if r.random() < 0.15:      # multi-byte tag numbers (varint byte order differs from numeric order)
+                big = [t for t in (127, 128, 129, 200, 255, 256, 300, 16383, 16384) if t not in tags]
+                if big:
+                    tag = r.choice(big)
             tags.add(tag)
             f["tag"] = tag
             # usually the field is born tagged; sometimes it exists untagged in earlier versions and
@@ -184,18 +190,18 @@ class DefGen:
 
     def gen_def(self, kind: str, key: int | None):
         r = self.rng
-        lo = 0
-        hi = r.choice([0, 1, 2, 3, 5, 5, 11, 13])       # two-digit versions too (string vs number ordering)
+        lo = r.choice([0, 0, 0, 0, 1, 2])               # retired early versions: valid versions need not start at 0
+        hi = lo + r.choice([0, 1, 2, 3, 5, 5, 11, 13])  # two-digit versions too (string vs number ordering)
         c = r.random()
         if c < 0.25:
             flex, flex_lo = "none", None
         else:
-            flex_lo = r.randint(0, hi)
+            flex_lo = r.randint(lo, hi)
             flex, flex_lo = f"{flex_lo}+", flex_lo
         base = f"Zq{self.serial}" + "".join(r.choice(WORDS) for _ in range(2))
         name = base + {"request": "Request", "response": "Response", "header": "Hdr", "data": "Record"}[kind]
         used, tags = set(), set()
-        d = {"type": kind, "name": name, "validVersions": f"{lo}-{hi}" if hi > lo else "0", "flexibleVersions": flex,
+        d = {"type": kind, "name": name, "validVersions": f"{lo}-{hi}" if hi > lo else str(lo), "flexibleVersions": flex,
              "fields": [self.gen_field(lo, hi, flex_lo, used, tags, 0, {}) for _ in range(r.choice([1, 2, 3, 4, 6]))]}
         if key is not None:
             d["apiKey"] = key
@@ -270,11 +276,28 @@ def crafted() -> list[dict]:
     d7 = {"type": "header", "name": "Zc7ConnectionHdr", "validVersions": "0-1", "flexibleVersions": "1+",
           "fields": [F("CorrelationId", "int32"), F("ClientId", "string", nullableVersions="0+"),
                      F("SessionName", "string", versions="1+")]}
+    d9 = {"type": "data", "name": "Zc9TagOrderRecord", "validVersions": "0-1", "flexibleVersions": "0+",
+          "fields": [F("Anchor", "int8"),
+                     F("Zed", "string", taggedVersions="0+", tag=7, ignorable=True),
+                     F("Mid", "int32", taggedVersions="0+", tag=3, default="5"),
+                     F("First", "[]int16", taggedVersions="0+", tag=0),
+                     F("Big", "int64", taggedVersions="1+", versions="1+", tag=256, ignorable=True),
+                     F("Odd", "int32", taggedVersions="0+", tag=129, ignorable=True),
+                     F("Far", "int16", taggedVersions="0+", tag=16384, ignorable=True),
+                     F("Edge", "int8", taggedVersions="0+", tag=127, ignorable=True),
+                     F("Inner", "Zc9Inner", taggedVersions="0+", tag=1, fields=[
+                         F("Bb", "int16", default="2", taggedVersions="0+", tag=4), F("Aa", "int16", default="1", taggedVersions="0+", tag=2)])]}
     d8 = {"type": "data", "name": "Zc8ClientRecord", "validVersions": "0-1", "flexibleVersions": "0+",
           "fields": [F("ClientId", "string"), F("Seq", "int64")]}
     # the two APIs the header rule singles out (ControlledShutdown = 7, ApiVersions = 18), each with
     # non-flexible and flexible versions
-    out = [d1, d2, d3, d7, d8]
+    # early versions retired: valid versions 1-3 (request and response), 2 (data)
+    d10 = [{"type": kind, "name": "Zc10Retired" + kind.capitalize(), "apiKey": 1901, "validVersions": "1-3",
+            "flexibleVersions": "2+", "fields": [F("Token", "string", versions="1+"), F("Epoch", "int32", versions="2+")]}
+           for kind in ("request", "response")]
+    d11 = {"type": "data", "name": "Zc11LateRecord", "validVersions": "2", "flexibleVersions": "2+",
+           "fields": [F("Payload", "bytes", versions="2+")]}
+    out = [d1, d2, d3, d7, d8, d9, *d10, d11]
     for key, stem in ((7, "Zc3Shutdown"), (18, "Zc4Versions")):
         for kind in ("request", "response"):
             out.append({"type": kind, "name": stem + kind.capitalize(), "apiKey": key, "validVersions": "0-4",
